@@ -203,6 +203,11 @@ def apply_initial(env, tweaks, rnd=None):
             signal.set_wakeup_fd(w, warn_on_full_buffer=False)
             env.keep.append((r, w))
             continue
+        if tw.startswith("size"):
+            # the size the terminal reports (TIOCGWINSZ): 0x0 is what a pty nobody has sized yet answers
+            rows_, cols_ = map(int, tw[4:].split("x"))
+            fcntl.ioctl(fd, termios.TIOCSWINSZ, struct.pack("HHHH", rows_, cols_, 0, 0))
+            continue
         if tw.startswith("handler_"):
             signal.signal(signal.SIGINT, {"handler_record": _recording_handler, "handler_raise": _raising_handler,
                                           "handler_ign": signal.SIG_IGN, "handler_dfl": signal.SIG_DFL}[tw])
@@ -912,6 +917,15 @@ def cases(tier, seed):
                 continue
             for p in (0, len(body)):
                 add(scenario="single", context=name, flags=flags, initial=initials[0], thread="main", body=body, prefix=p, exc=e)
+    # (2d) windows on a terminal that reports an unusual size (0x0: a pty nobody has sized yet; one cell; narrower than the arrays drawn)
+    for name, flags in CONFIGS:
+        if "Window" not in name:
+            continue
+        body = _body_for(name, 0)
+        for size in ("size0x0", "size1x1", "size2x3", "size0x7"):
+            add(scenario="single", context=name, flags=flags, initial=[size], thread="main", body=body, prefix=len(body), exc=None)
+            for p in ((0, 1, 2, len(body)) if (thorough or size == "size0x0") else (1,)):
+                add(scenario="single", context=name, flags=flags, initial=[size], thread="main", body=body, prefix=p, exc="Boom")
     # (2c) the terminal goes away while an Input is open
     for flags in ({"sigint_event": True}, {"sigint_event": False}):
         for how in ("hangup", "closed"):
